@@ -19,6 +19,7 @@ static const char* kTmpl[] = {
   /*21*/ "1.00000000000000011102230246251565404236316680908203125#", /*22*/ "8.98846567431157#e307", /*23*/ "#.#E+#", /*24*/ "1e#0#", /*25*/ "72057594037927935E#",
   /*26*/ "9.3326361850321887e-30#", /*27*/ "1.8e30#", /*28*/ "#00000000000000000000000e-#", /*29*/ "0.3e#",
   /*30: inside an array*/ "1.#e30#", /*31: as a member value*/ "-#e30#", /*32*/ "2.5e-#",
+  /*33*/ "0.0000000000000000000000#", /*34*/ "-0.000000000000000000000000000000000000000#", /*35*/ "0.00000000000000000000000#0",
 };
 static const char* kPre[] = {"[", "{\"a\":", " [ 7 , "};
 static const char* kSuf[] = {"]", "}", " ] "};
@@ -36,7 +37,7 @@ extern "C" int h_numtext(void) {
   if (ref::parse_number(p, p + n, &num) != ref::R_OK || p != (const uint8_t*)in + n) { free(in); return 0; }   // template instance is not a number
   uint64_t want = verif_oracle_text2double(in, n);
   bool inf = (want & 0x7fffffffffffffffull) == 0x7ff0000000000000ull;
-  if (t >= 30) {
+  if (t >= 30 && t <= 32) {
     // the same number nested in a container: rejected with the infinity error, or stored as the same double
     const char* pre = kPre[t - 30]; const char* suf = kSuf[t - 30];
     size_t a = strlen(pre), b = strlen(suf);
